@@ -32,7 +32,7 @@ variable {K : Type} [Field K] [LinearOrder K] [IsStrictOrderedRing K]
 theorem secant_fixed_point {ε : K} {sq : K → K} (st : Secant K) (u1 r : Vec K) (seps : K) (iter : Nat)
     (hr : ∀ x ∈ r, x = 0) (hlen : u1.length ≤ st.u1.length) :
     (Secant.exec (fieldConsts ε sq) st u1 r seps iter).2 = u1 := by
-  unfold Secant.exec
+  unfold Secant.exec Secant.step Secant.shift
   dsimp only
   split_ifs with h1 h2
   · show List.zipWith _ u1 (List.zip u1 st.u1) = u1
@@ -48,7 +48,7 @@ theorem secant_fixed_point {ε : K} {sq : K → K} (st : Secant K) (u1 r : Vec K
 theorem ironsTuck_fixed_point {ε : K} {sq : K → K} (st : IronsTuck K) (u1 du : Vec K) (eeps : K) (iter : Nat)
     (hdu : ∀ x ∈ du, x = 0) (hlen : u1.length ≤ du.length) :
     (IronsTuck.exec (fieldConsts ε sq) st u1 du eeps iter).2 = u1 := by
-  unfold IronsTuck.exec
+  unfold IronsTuck.exec IronsTuck.step IronsTuck.shift
   dsimp only
   split_ifs with h1 h2
   · apply zipWith_left_of
@@ -64,7 +64,7 @@ theorem ironsTuck_fixed_point {ε : K} {sq : K → K} (st : IronsTuck K) (u1 du 
 theorem steffensen_fixed_point {ε : K} {sq : K → K} (st : Steffensen K) (u1 : Vec K) (eeps : K) (iter : Nat)
     (h1 : st.u1 = u1) (h2 : st.u2 = u1) (hε : 0 ≤ ε) (heeps : 0 ≤ eeps) :
     (Steffensen.exec (fieldConsts ε sq) st u1 eeps iter).2 = u1 := by
-  unfold Steffensen.exec
+  unfold Steffensen.exec Steffensen.step Steffensen.shift
   dsimp only
   split_ifs with h
   · rw [h1, h2]
@@ -90,7 +90,7 @@ history of zero residuals) `u1` is left unchanged. -/
 theorem castem_fixed_point {ε : K} {sq : K → K} (st : Castem K) (u1 r : Vec K) (seps : K) (iter : Nat)
     (hst : st.r1 = st.r2) (hsq : sq 0 = 0) (hε : 0 ≤ ε) (hseps : 0 ≤ seps) :
     (Castem.exec (fieldConsts ε sq) st u1 r seps iter).2 = u1 := by
-  unfold Castem.exec
+  unfold Castem.exec Castem.step Castem.shift
   dsimp only
   have hn : norm (fieldConsts ε sq) (vsub st.r2 st.r1) = 0 := by
     rw [hst, norm_zero _ (vsub_self_zero _), hsq]
@@ -107,7 +107,7 @@ theorem castem_fixed_point {ε : K} {sq : K → K} (st : Castem K) (u1 r : Vec K
 three iterates: stationary iterates are left unchanged whatever the residuals. -/
 theorem castem_stationary_iterates {C : Consts K} (hC : C.one = 1) (st : Castem K) (u1 r : Vec K) (seps : K)
     (iter : Nat) (h1 : st.u1 = u1) (h2 : st.u2 = u1) : (Castem.exec C st u1 r seps iter).2 = u1 := by
-  unfold Castem.exec
+  unfold Castem.exec Castem.step Castem.shift
   dsimp only
   rw [h1, h2]
   split_ifs
@@ -125,7 +125,7 @@ theorem castem_stationary_iterates {C : Consts K} (hC : C.one = 1) (st : Castem 
 /-- secant: stationary iterates are left unchanged whatever the residuals. -/
 theorem secant_stationary_iterates {C : Consts K} (st : Secant K) (u1 r : Vec K) (seps : K) (iter : Nat)
     (h1 : st.u1 = u1) : (Secant.exec C st u1 r seps iter).2 = u1 := by
-  unfold Secant.exec
+  unfold Secant.exec Secant.step Secant.shift
   dsimp only
   rw [h1]
   split_ifs
@@ -139,31 +139,142 @@ theorem secant_stationary_iterates {C : Consts K} (st : Secant K) (u1 r : Vec K)
 
 theorem castem_below_trigger {C : Consts K} (st : Castem K) (u1 r : Vec K) (seps : K) (iter : Nat)
     (h : iter < st.cat) : (Castem.exec C st u1 r seps iter).2 = u1 := by
-  unfold Castem.exec
+  unfold Castem.exec Castem.step Castem.shift
   dsimp only
   have : ¬ (st.cat ≤ iter ∧ (iter - st.cat) % st.cap = 0) := fun hc => absurd hc.1 (by omega)
   simp [this]
 
 theorem secant_below_trigger {C : Consts K} (st : Secant K) (u1 r : Vec K) (seps : K) (iter : Nat)
     (h : iter < st.sat) : (Secant.exec C st u1 r seps iter).2 = u1 := by
-  unfold Secant.exec
+  unfold Secant.exec Secant.step Secant.shift
   dsimp only
   have : ¬ (st.sat ≤ iter) := by omega
   simp [this]
 
 theorem ironsTuck_below_trigger {C : Consts K} (st : IronsTuck K) (u1 du : Vec K) (eeps : K) (iter : Nat)
     (h : iter < st.itat) : (IronsTuck.exec C st u1 du eeps iter).2 = u1 := by
-  unfold IronsTuck.exec
+  unfold IronsTuck.exec IronsTuck.step IronsTuck.shift
   dsimp only
   have : ¬ (st.itat ≤ iter ∧ (iter - st.itat) % 2 = 0) := fun hc => absurd hc.1 (by omega)
   simp [this]
 
 theorem steffensen_below_trigger {C : Consts K} (st : Steffensen K) (u1 : Vec K) (eeps : K) (iter : Nat)
     (h : iter < st.stat) : (Steffensen.exec C st u1 eeps iter).2 = u1 := by
-  unfold Steffensen.exec
+  unfold Steffensen.exec Steffensen.step Steffensen.shift
   dsimp only
   have : ¬ (st.stat ≤ iter ∧ (iter - st.stat) % 2 = 0) := fun hc => absurd hc.1 (by omega)
   simp [this]
+
+/-! ## A resolution attempt is a function of its inputs only
+
+`Castem.run` etc. are one attempt: the calls `execute(…, iter)` for `iter = 1, 2, …`. Whatever the state the
+object is in when the attempt starts (zeros after `initialize`, the history of a previous — possibly
+rejected — attempt, …), the accelerated iterates of the attempt are the same, provided the trigger is at
+least the depth of the history (enforced by the `setParameter` of each algorithm; defaults 4, 3, 2, 3).
+For these four algorithms `preExecuteTasks` therefore has nothing to reset; for the Anderson algorithms
+the reset is made by `preExecuteTasks` and `GenericSolver` must call it at the beginning of every attempt
+(checked on the implementation by checks/C49.py: call protocol, fresh-versus-polluted objects, rejected
+first attempts). -/
+
+theorem castem_attempt_independent_of_history {C : Consts K} (seps : K) (st st' : Castem K)
+    (hcat : st.cat = st'.cat) (hcap : st.cap = st'.cap) (h3 : 3 ≤ st.cat) (calls : List (Vec K × Vec K)) :
+    Castem.run C seps st calls 1 = Castem.run C seps st' calls 1 := by
+  have hb : ∀ (s : Castem K) (u : Vec K) (it : Nat), it < s.cat → s.step C u seps it = u := by
+    intro s u it h
+    unfold Castem.step
+    have : ¬ (s.cat ≤ it ∧ (it - s.cat) % s.cap = 0) := fun hc => absurd hc.1 (by omega)
+    simp [this]
+  have h3' : 3 ≤ st'.cat := hcat ▸ h3
+  match calls with
+  | [] => rfl
+  | [c1] =>
+    simp only [Castem.run, Castem.exec]
+    rw [hb _ _ 1 (by simp [Castem.shift]; omega), hb _ _ 1 (by simp [Castem.shift]; omega)]
+  | [c1, c2] =>
+    simp only [Castem.run, Castem.exec]
+    rw [hb _ _ 1 (by simp [Castem.shift]; omega), hb _ _ 1 (by simp [Castem.shift]; omega),
+      hb _ _ 2 (by simp [Castem.shift]; omega), hb _ _ 2 (by simp [Castem.shift]; omega)]
+  | c1 :: c2 :: c3 :: rest =>
+    have hs : ((st.shift c1.1 c1.2).shift c2.1 c2.2).shift c3.1 c3.2 =
+        ((st'.shift c1.1 c1.2).shift c2.1 c2.2).shift c3.1 c3.2 := by
+      cases st; cases st'
+      simp only [Castem.shift] at *
+      simp_all
+    simp only [Castem.run, Castem.exec]
+    rw [hb _ _ 1 (by simp [Castem.shift]; omega), hb _ _ 1 (by simp [Castem.shift]; omega),
+      hb _ _ 2 (by simp [Castem.shift]; omega), hb _ _ 2 (by simp [Castem.shift]; omega), hs]
+
+theorem secant_attempt_independent_of_history {C : Consts K} (seps : K) (st st' : Secant K)
+    (hsat : st.sat = st'.sat) (h3 : 3 ≤ st.sat) (calls : List (Vec K × Vec K)) :
+    Secant.run C seps st calls 1 = Secant.run C seps st' calls 1 := by
+  have hb : ∀ (s : Secant K) (u : Vec K) (it : Nat), it < s.sat → s.step C u seps it = u := by
+    intro s u it h
+    unfold Secant.step
+    have : ¬ (s.sat ≤ it) := by omega
+    simp [this]
+  have h3' : 3 ≤ st'.sat := hsat ▸ h3
+  match calls with
+  | [] => rfl
+  | [c1] =>
+    simp only [Secant.run, Secant.exec]
+    rw [hb _ _ 1 (by simp [Secant.shift]; omega), hb _ _ 1 (by simp [Secant.shift]; omega)]
+  | c1 :: c2 :: rest =>
+    have hs : (st.shift c1.1 c1.2).shift c2.1 c2.2 = (st'.shift c1.1 c1.2).shift c2.1 c2.2 := by
+      cases st; cases st'
+      simp only [Secant.shift] at *
+      simp_all
+    simp only [Secant.run, Secant.exec]
+    rw [hb _ _ 1 (by simp [Secant.shift]; omega), hb _ _ 1 (by simp [Secant.shift]; omega),
+      hb _ _ 2 (by simp [Secant.shift]; omega), hb _ _ 2 (by simp [Secant.shift]; omega), hs]
+
+theorem ironsTuck_attempt_independent_of_history {C : Consts K} (eeps : K) (st st' : IronsTuck K)
+    (hit : st.itat = st'.itat) (h2 : 2 ≤ st.itat) (calls : List (Vec K × Vec K)) :
+    IronsTuck.run C eeps st calls 1 = IronsTuck.run C eeps st' calls 1 := by
+  have hb : ∀ (s : IronsTuck K) (u : Vec K) (it : Nat), it < s.itat → s.step C u eeps it = u := by
+    intro s u it h
+    unfold IronsTuck.step
+    have : ¬ (s.itat ≤ it ∧ (it - s.itat) % 2 = 0) := fun hc => absurd hc.1 (by omega)
+    simp [this]
+  have h2' : 2 ≤ st'.itat := hit ▸ h2
+  match calls with
+  | [] => rfl
+  | [c1] =>
+    simp only [IronsTuck.run, IronsTuck.exec]
+    rw [hb _ _ 1 (by simp [IronsTuck.shift]; omega), hb _ _ 1 (by simp [IronsTuck.shift]; omega)]
+  | c1 :: c2 :: rest =>
+    have hs : (st.shift c1.2).shift c2.2 = (st'.shift c1.2).shift c2.2 := by
+      cases st; cases st'
+      simp only [IronsTuck.shift] at *
+      simp_all
+    simp only [IronsTuck.run, IronsTuck.exec]
+    rw [hb _ _ 1 (by simp [IronsTuck.shift]; omega), hb _ _ 1 (by simp [IronsTuck.shift]; omega), hs]
+
+theorem steffensen_attempt_independent_of_history {C : Consts K} (eeps : K) (st st' : Steffensen K)
+    (hst : st.stat = st'.stat) (h3 : 3 ≤ st.stat) (calls : List (Vec K)) :
+    Steffensen.run C eeps st calls 1 = Steffensen.run C eeps st' calls 1 := by
+  have hb : ∀ (s : Steffensen K) (u : Vec K) (it : Nat), it < s.stat → s.step C u eeps it = u := by
+    intro s u it h
+    unfold Steffensen.step
+    have : ¬ (s.stat ≤ it ∧ (it - s.stat) % 2 = 0) := fun hc => absurd hc.1 (by omega)
+    simp [this]
+  have h3' : 3 ≤ st'.stat := hst ▸ h3
+  match calls with
+  | [] => rfl
+  | [c1] =>
+    simp only [Steffensen.run, Steffensen.exec]
+    rw [hb _ _ 1 (by simp [Steffensen.shift]; omega), hb _ _ 1 (by simp [Steffensen.shift]; omega)]
+  | [c1, c2] =>
+    simp only [Steffensen.run, Steffensen.exec]
+    rw [hb _ _ 1 (by simp [Steffensen.shift]; omega), hb _ _ 1 (by simp [Steffensen.shift]; omega),
+      hb _ _ 2 (by simp [Steffensen.shift]; omega), hb _ _ 2 (by simp [Steffensen.shift]; omega)]
+  | c1 :: c2 :: c3 :: rest =>
+    have hs : ((st.shift c1).shift c2).shift c3 = ((st'.shift c1).shift c2).shift c3 := by
+      cases st; cases st'
+      simp only [Steffensen.shift] at *
+      simp_all
+    simp only [Steffensen.run, Steffensen.exec]
+    rw [hb _ _ 1 (by simp [Steffensen.shift]; omega), hb _ _ 1 (by simp [Steffensen.shift]; omega),
+      hb _ _ 2 (by simp [Steffensen.shift]; omega), hb _ _ 2 (by simp [Steffensen.shift]; omega), hs]
 
 /-! ## The convergence predicate is option independent -/
 
